@@ -108,3 +108,15 @@ CLAIMS["C06"] = {
             "the open connections imply, and ConnsToPeer lists exactly the admitted open connections. Exploration.",
     "note": "Scripted transport connections stand in for real ones; stream handlers are by design not waited for by Swarm.Close; interleavings inside one virtual instant are sampled by repetition.",
 }
+
+CLAIMS["C15"] = {
+    "technique": "property-based schedule exploration (rapid) of the real event bus inside synctest bubbles with history oracles over a stamped emission log; bounded-exhaustive enumeration of stall shapes; -race pass; bubble-exit / hang detection as deadlock detector",
+    "design_ref": "DESIGN.md section 3, C15",
+    "text": "Generated multi-step schedules (typed / multi-type / wildcard subscriptions, buffers 0/1/2/16/default, 1-4 emitters on 1-3 goroutines, slow and eager readers, stalls shorter and longer than the 1 s warning, "
+            "Close of subscriptions and emitters before, during and after blocked and in-flight emits; actions of one step race for real) are judged at every quiescence point: every event emitted inside a subscription's life "
+            "is delivered exactly once and in per-emitter order, reads before Close are gap-free, stateful types deliver the most recent earlier event first, wildcard subscribers see all types, Emit blocks rather than drops and "
+            "resumes on read or Close, nothing reaches a closed subscription, no panic, and the bubble can always exit. One genuine deadlock (multi-type Subscribe vs a concurrent bus-lock holder) was found, shrunk to a witness and "
+            "repaired. 19/19 probe mutants detected in the quick tier. Exploration.",
+    "note": "Interleavings within one instant are sampled by the Go scheduler; schedules that would leave a goroutine waiting on a bus mutex behind an emit stalled past the end of a step are not run (invisible to synctest); "
+            "a bubble that does not finish within the 120 s watchdog counts as a violation for this property (mutex deadlocks can only show up that way).",
+}
